@@ -13,8 +13,17 @@ RULE = ("one case = one CreateArchive call on a fresh directory followed by reop
         "on both sides of the letter ranges, every residue of name-table length mod 4, all orderings of <= 4 files, path spellings "
         "x ./x d/x ./d/x d/../d/x, pre-existing destination; refusals: duplicate names ignoring case (adjacent or not, any "
         "directories), destination = input up to case and leading ./, each with a before/after snapshot of every file")
-PROVED = ""
-PARTIAL = ""
+PROVED = ("for ALL output paths and file lists: C01_roundtrip (names distinct ignoring case, members < 2^31, block offsets < 2^32, output not an "
+          "input => the archive is created, reopening lists one member per input in the sorted order with exact name/size/kind, "
+          "stream and extraction return the input bytes); C01_lookup_any_case (GetIndex/Contains find member i under every flipping of "
+          "letter case); C01_perm (archive bytes or refusal identical for every permutation of the inputs); C01_refuse_dup, "
+          "C01_refuse_self, C01_failure_is_atomic (refusal => file system unchanged); C01_order (listing = sorted permutation); the "
+          "u32/u64 layout arithmetic of PrepareHeader equals the declarative layout (mask lemmas via testBit); the chunked copy "
+          "delivers the content for every chunk size; bridging lemmas for all scraped constants / measured layouts")
+PARTIAL = ("hypotheses of C01_roundtrip beyond the statement: names contain no NUL and no 0xFF byte, header below the harness' 1 GiB "
+           "allocation cap (about 76 million members); ExtractAllFiles' path join and the OS file system are covered by the "
+           "correspondence run only; 'refusal precedes creation' is structural in the model (createFs writes only after plan "
+           "succeeded) and is tied to the code by the before/after snapshots of the run")
 TRUSTED = ["model of std::experimental::filesystem::path (Op2Model/Path.lean)", "glibc C-locale tolower/toupper (Op2Model/Str.lean)",
            "std::sort returns a sorted permutation (the theorems hold for every such result)"]
 ASSUMPTIONS = ["input files exist and are readable; the destination directory is writable; no other process touches the directory"]
